@@ -154,6 +154,59 @@ def shapes(lst):
     return [[int(x) for x in np.shape(a)] for a in lst]
 
 
+def script_plots(bp, fn, dist, enabled):
+    """phonopy-bandplot run on the file as the command does (new style and --legacy): tick labels per visible axis;
+    pos: the ticks sit at the segment ends (new style: up to the common x scale of the figure)."""
+    import matplotlib.pyplot as plt
+
+    none = (dict(has=False, panels=[], pos=True), dict(has=False, ticks=[], pos=True))
+    total = float(dist[-1][-1]) if len(dist) and len(dist[-1]) else 0.0
+    if not enabled or total <= 0.0:
+        return none
+    ends = [float(dist[0][0])] + [float(d[-1]) for d in dist]
+    if any(b - a <= 1e-9 for a, b in zip(ends[:-1], ends[1:])):
+        return none         # coinciding tick positions: matplotlib keeps one label per position (not phonopy's doing)
+    argv = list(sys.argv)
+    out = []
+    try:
+        for legacy in (False, True):
+            sys.argv = ["phonopy-bandplot"] + (["--legacy"] if legacy else []) + [fn]
+            with warnings.catch_warnings():
+                warnings.simplefilter("ignore")
+                with contextlib.redirect_stdout(io.StringIO()):
+                    bp.run()
+            fig = plt.gcf()
+            axes = [a for a in fig.axes if a.get_visible()]
+            labs = [[t.get_text() for t in a.get_xticklabels()] for a in axes]
+            ticks = [[float(x) for x in a.get_xticks()] for a in axes]
+            flat = [x for row in ticks for x in row]
+            if legacy:
+                pos = len(flat) == len(ends) and all(abs(a - b) <= 1e-6 for a, b in zip(flat, ends))
+                out.append(dict(has=True, ticks=labs[0] if len(labs) == 1 else [x for row in labs for x in row] + ["<%d axes>" % len(labs)], pos=bool(pos)))
+            else:
+                # panel p covers segments [lo, hi]: ticks at ends[lo], ends[lo+1], ..., ends[hi+1], all scaled by one factor
+                pos, lo = True, 0
+                scale = None
+                for row in ticks:
+                    want = ends[lo:lo + len(row)]
+                    lo += len(row) - 1
+                    if len(want) != len(row):
+                        pos = False
+                        break
+                    for a, b in zip(row, want):
+                        if b > 1e-9:
+                            scale = a / b if scale is None else scale
+                            pos = pos and abs(a - scale * b) <= 1e-6 * max(1.0, abs(a))
+                        else:
+                            pos = pos and abs(a) <= 1e-9
+                out.append(dict(has=True, panels=labs, pos=bool(pos and lo == len(ends) - 1)))
+            plt.close("all")
+    finally:
+        sys.argv = argv
+        plt.close("all")
+    return out[0], out[1]
+
+
 def run_bs(case, worlds, tmpdir):
     from phonopy.scripts import phonopy_bandplot as bp
 
@@ -259,6 +312,7 @@ def run_bs(case, worlds, tmpdir):
         rd["labels"] = opt(None if labels is None else [str(x) for x in labels])
         rd["conn"] = [bool(c) for c in conn]
         ob["rd"] = rd
+        ob["sp"], ob["so"] = script_plots(bp, fn, dist, case.get("script", False))
         os.unlink(fn)
         ev["ob"] = ob
     except Exception as exc:  # noqa: BLE001
@@ -270,6 +324,115 @@ def run_bs(case, worlds, tmpdir):
     return ev
 
 
+CLI_ONLY = ["YamlCounts", "YamlLabels", "ReaderSegments", "ReaderLabels", "ReaderNoLabels", "ReaderConn", "ScriptPanels", "ScriptLegacy"]
+
+
+def frac(n, d):
+    from math import gcd
+
+    g = gcd(abs(n), d)
+    n, d = n // g, d // g
+    return "%d" % n if d == 1 else "%d/%d" % (n, d)
+
+
+def run_cli_case(case, worlds, tmpdir):
+    """phonopy --band ... in a scratch directory; band.yaml is what the command shows.  Two events: the q-points of the
+    file against BandPath (request = the BAND setting), the file / reader / bandplot against BandBook."""
+    from harness.c18_cli import run_cli
+    from phonopy.file_IO import write_FORCE_CONSTANTS
+    from phonopy.interface.vasp import write_vasp
+    from phonopy.scripts import phonopy_bandplot as bp
+
+    w = worlds[case["world"]]
+    rq = case["rq"]
+    den = rq["den"]
+    d = os.path.join(tmpdir, "cli_%d" % case["id"])
+    os.makedirs(d)
+    write_vasp(os.path.join(d, "POSCAR-unitcell"), w.cell)
+    write_FORCE_CONSTANTS(w.fc, filename=os.path.join(d, "FORCE_CONSTANTS"))
+    band = ", ".join("  ".join(" ".join(frac(x, den) for x in p) for p in path) for path in rq["paths"])
+    argv = ["-c", "POSCAR-unitcell", "--readfc"]
+    conf = ["DIM = %d %d %d" % tuple(np.diag(w.S))]
+    a = case["args"]
+    if case["via"] == "conf":
+        conf.append("BAND = " + band)
+        if rq["np"] is not None:
+            conf.append("BAND_POINTS = %d" % rq["np"])
+        if a["labels"]["has"]:
+            conf.append("BAND_LABELS = " + " ".join(a["labels"]["v"]))
+        if rq["uselen"]:
+            conf.append("BAND_CONST_INTERVAL = .TRUE.")
+        if a["legacy"]:
+            conf.append("LEGACY_PLOT = .TRUE.")
+        if a["ev"]:
+            conf.append("EIGENVECTORS = .TRUE.")
+    else:
+        argv += ["--band", band]
+        if rq["np"] is not None:
+            argv += ["--band-points", str(rq["np"])]
+        if a["labels"]["has"]:
+            argv += ["--band-labels"] + list(a["labels"]["v"])
+        if rq["uselen"]:
+            argv += ["--band-const-interval"]
+        if a["legacy"]:
+            argv += ["--legacy-plot"]
+        if a["ev"]:
+            argv += ["--eigvecs"]
+    with open(os.path.join(d, "band.conf"), "w") as f:
+        f.write("\n".join(conf) + "\n")
+    r = run_cli("phonopy", argv + ["band.conf"], d)
+    fn = os.path.join(d, "band.yaml")
+    out = dict(id=case["id"], world=w.name, argv=argv, conf=conf)
+    if r["code"] != 0 or not os.path.exists(fn):
+        out["exc"] = "exit code %s %s\n%s" % (r["code"], r["exc"], r["stdout"][-1200:])
+        return out
+    try:
+        with open(fn) as f:
+            data = yaml.safe_load(f)
+        segn = [int(x) for x in data["segment_nqpoint"]]
+        qs = np.array([p["q-position"] for p in data["phonon"]], dtype=float).reshape(-1, 3)
+        ds = np.array([p["distance"] for p in data["phonon"]], dtype=float)
+        pts, exact, k = [], len(qs) == sum(segn), 0
+        dist = []
+        for n in segn:
+            q = qs[k:k + n]
+            dist.append(ds[k:k + n])
+            k += n
+            x = q * den * max(n - 1, 0)
+            rr = np.rint(x)
+            if len(q) != n or np.abs(x - rr).max(initial=0) > 0.6e-7 * den * max(n - 1, 1) + 1e-9:
+                exact = False
+            pts.append([[int(v) for v in row] for row in rr])
+        req = dict(rq, np=51 if rq["np"] is None else rq["np"])
+        out["gen"] = dict(id=case["id"], rq=req, got=dict(npts=segn, pts=pts, exact=bool(exact), hasconn=False, conn=[]))
+        # the segments by definition (counts as written; they are judged by the gen event)
+        flat = [(path[i], path[i + 1]) for path in rq["paths"] for i in range(len(path) - 1)]
+        conn = [i < len(path) - 2 for path in rq["paths"] for i in range(len(path) - 1)]
+        segs = []
+        for (p0, p1), n in zip(flat, segn + [2] * len(flat)):
+            n = max(n, 2)
+            segs.append(dict(den=den * (n - 1), q=[[p0[i] * (n - 1) + (p1[i] - p0[i]) * j for i in range(3)] for j in range(n)]))
+        cs = dict(metric=w.metric, nb=w.nb, segs=segs,
+                  args=dict(conn=dict(has=True, v=conn), labels=a["labels"], legacy=a["legacy"], ev=a["ev"], gv=False, bc=False))
+        y = dict(nqpoint=int(data["nqpoint"]), npath=int(data["npath"]), segn=segn, nphonon=len(data["phonon"]), natom=int(data["natom"]),
+                 labels=opt([[str(p[0]), str(p[1])] for p in data["labels"]] if "labels" in data else None))
+        rdist, rfreq, rqp, rseg, rlab = bp._read_band_yaml(fn)
+        labels, rconn, freq_list, dist_list = bp._arrange_band_data(rdist, rfreq, rqp, rseg, rlab)
+        rd = dict(segn=[int(len(x)) for x in dist_list], dok=bool([len(x) for x in freq_list] == segn),
+                  labels=opt(None if labels is None else [str(x) for x in labels]), conn=[bool(c) for c in rconn])
+        cwd = os.getcwd()
+        sp, so = script_plots(bp, fn, dist, True)
+        os.chdir(cwd)
+        out["bs"] = dict(id=case["id"], cs=cs, only=CLI_ONLY, ob=dict(y=y, rd=rd, sp=sp, so=so))
+        out["eigvecs_in_file"] = bool("eigenvector" in data["phonon"][0]["band"][0])
+    except Exception as exc:  # noqa: BLE001
+        import traceback
+
+        out["exc"] = "%s: %s\n%s" % (type(exc).__name__, exc, traceback.format_exc()[-1200:])
+        out["phonopy_exc"] = bool(is_phonopy_exc(exc))
+    return out
+
+
 # ------------------------------------------------------------------------------------------------
 def main(plan_path, out_path):
     with open(plan_path) as f:
@@ -278,20 +441,21 @@ def main(plan_path, out_path):
     rng = np.random.default_rng(plan["seed"])
     gen = [run_gen(c, rng) for c in plan.get("gen", [])]
     worlds = {}
-    for c in plan.get("bs", []) + plan.get("api", []) + plan.get("h5", []):
+    for c in plan.get("bs", []) + plan.get("api", []) + plan.get("h5", []) + plan.get("cli", []):
         if c["world"] not in worlds:
             worlds[c["world"]] = World(c["world"], plan["seed"])
     bs = []
     with tempfile.TemporaryDirectory(prefix="x07_") as tmpdir:
         for c in plan.get("bs", []):
             bs.append(run_bs(c, worlds, tmpdir))
+        cli = [run_cli_case(c, worlds, tmpdir) for c in plan.get("cli", [])]
         api, h5 = [], []
         if plan.get("api") or plan.get("h5"):
             from harness import x07_api
             api = [x07_api.run_history(c, worlds, tmpdir) for c in plan.get("api", [])]
             h5 = [x07_api.run_h5(c, worlds, tmpdir) for c in plan.get("h5", [])]
     with open(out_path, "w") as f:
-        json.dump(dict(gen=gen, bs=bs, api=api, h5=h5, wall=time.time() - t0), f)
+        json.dump(dict(gen=gen, bs=bs, api=api, h5=h5, cli=cli, wall=time.time() - t0), f)
 
 
 if __name__ == "__main__":
